@@ -405,6 +405,7 @@ func checkC10(c *Check) {
 	c10Bytes(c)
 	c10FirstAttempt(c)
 	c10Recipients(c)
+	c10Location(c)
 }
 
 type packagesPkg = packagesPackage
@@ -1001,4 +1002,62 @@ func assignedAnywhere(info *types.Info, body ast.Node, obj types.Object) bool {
 		return !found
 	})
 	return found
+}
+
+// R7: every queue instance has a spool of its own. The default location is derived from the INSTANCE name (the name
+// the block was declared with) – the module name is the same for every instance, and two queues that share a directory
+// load each other's messages after a restart (queue B hands its target what queue A accepted: delivered twice, to the
+// wrong target). Also evaluated here: C02.R1d (the commit record is written last).
+func c10Location(c *Check) {
+	p := c.P
+	c.Rule("R7", "Queue.Init: the default spool directory is built from the instance name (what InstanceName returns), never from the module name", 1)
+	ini := c.need("R7", queueRel, "Queue", "Init")
+	if ini == nil {
+		return
+	}
+	// the field InstanceName returns
+	var instField *types.Var
+	if in := p.Func(queueRel, "Queue", "InstanceName"); in != nil {
+		inspectNoLit(in.Decl.Body, func(x ast.Node) bool {
+			if ret, ok := x.(*ast.ReturnStmt); ok && len(ret.Results) == 1 {
+				instField = fieldOf(in.Info(), ret.Results[0])
+			}
+			return true
+		})
+	}
+	info := ini.Info
+	msg := "undecided: no default for the spool location"
+	ast.Inspect(ini.FI.Decl.Body, func(x ast.Node) bool {
+		as, ok := x.(*ast.AssignStmt)
+		if !ok || len(as.Lhs) != 1 || len(as.Rhs) != 1 {
+			return true
+		}
+		if fv := fieldOf(info, as.Lhs[0]); fv == nil || objName(fv) != "location" {
+			return true
+		}
+		call, ok := ast.Unparen(as.Rhs[0]).(*ast.CallExpr)
+		if !ok || !isCall(info, call, "path/filepath.Join") {
+			return true
+		}
+		msg = "the default spool directory does not contain the instance name: every queue block without an explicit location shares one directory, and after a restart each instance loads – and delivers – the others' messages"
+		for _, a := range call.Args {
+			if fv := fieldOf(info, a); fv != nil && instField != nil && fv == instField {
+				msg = ""
+			}
+		}
+		return true
+	})
+	if instField == nil {
+		msg = "undecided: InstanceName does not return a field"
+	}
+	c.Hold("R7", "Queue.Init:location-per-instance", ini.FI.Decl.Pos(), msg == "", msg)
+
+	c.Rule("R7b", "the spool's commit record is written after header and body were synced (C02.R1d): a stop during acceptance never leaves a deliverable, truncated message", 1)
+	sub := newCheck("C02", c.P, c.Tier)
+	c02CommitLast(sub)
+	for _, o := range sub.obs {
+		if o.Rule == "R1d" {
+			c.Hold("R7b", o.Key, o.posRaw, o.OK, o.Msg)
+		}
+	}
 }
